@@ -2,6 +2,7 @@ import EinoV.Basic.JsonUtil
 import EinoV.Model.C10
 import EinoV.Model.C10Runs
 import EinoV.Model.C10Share
+import EinoV.Model.C10Builtin
 import EinoV.Expected.C10
 
 namespace EinoV.Oracle.C10
@@ -158,6 +159,55 @@ def handleShare (c : Json) : JE Json := do
                       ("runInfo", J.mkArr ((List.range ns.length).map fun i =>
                           match runInfo ls st i with | some s => Json.str s | none => Json.null))]
 
+/-! ### builtin: the shipped components that fire their own callbacks, faulting at each point
+    (Model/C10Builtin.lean) -/
+
+def asBool : Json → JE Bool
+  | .bool b => pure b
+  | _ => throw "expected a boolean"
+
+def parseTaskOut : String → JE TaskOut
+  | "ok" => pure .ok | "err" => pure .err | "panic" => pure .panic
+  | s => throw s!"bad task outcome {s}"
+
+def parseRoute : String → JE RouteD
+  | "ok" => pure .ok | "err" => pure .err | "none" => pure .none_ | "unknown" => pure .unknown
+  | "default" => pure .dflt
+  | s => throw s!"bad route {s}"
+
+def parseBNode (j : Json) : JE BNode := do
+  let key ← J.str j "key"
+  match (← J.str j "nk") with
+  | "tpl" => pure (.tpl key (← (J.arrD j "fails").mapM asBool))
+  | "router" => do
+    let cs ← (J.arrD j "children").mapM fun c => do pure (← J.str c "type", ← parseTaskOut (← J.str c "out"))
+    pure (.router key ⟨← parseRoute (← J.str j "route"), cs, J.boolD j "fusionFails" false⟩)
+  | "mq" => do
+    let rw ← match (← J.str j "rewrite") with
+      | "handler" => pure (RewriteD.handler (J.boolD j "rewriteFails" false))
+      | "llm" => do pure (RewriteD.llm (← (J.arrD j "fails").mapM asBool) (J.boolD j "modelFails" false) (J.boolD j "parserFails" false))
+      | s => throw s!"bad rewrite {s}"
+    let qs ← (J.arrD j "queries").mapM fun q => do parseTaskOut (← J.asStr q)
+    pure (.mq key ⟨rw, ← J.str j "origType", qs, J.boolD j "fusionFails" false⟩)
+  | "lam" => pure (.lam key (J.boolD j "fail" false))
+  | s => throw s!"bad node kind {s}"
+
+def parseBTop (j : Json) : JE BTop := do
+  match (← J.str j "nk") with
+  | "graph" => pure (.sub (← J.str j "key") (← (J.arrD j "inner").mapM parseBNode))
+  | _ => pure (.node (← parseBNode j))
+
+def handleBuiltin (c : Json) : JE Json := do
+  let sh : BShape := ⟨(← J.str c "paradigm") != "invoke", ← (J.arrD c "nodes").mapM parseBTop⟩
+  let bf := Expected.C10.bfacts
+  let us := bUnits bf sh
+  let cs : Case := { globals := ← parseHds c "globals", userInit := ← parseUserInit c,
+                     opts := ← (J.arrD c "opts").mapM parseOpt, units := us }
+  let js := (unitsJson cs).zip us |>.map fun (j, u) => j.setObjVal! "path" (J.mkStrs u.path)
+  let cbs := buildCbs cs.opts
+  pure <| Json.mkObj [("outcome", Json.str (if sh.fails bf then "error" else "ok")),
+                      ("units", J.mkArr js), ("cbsLen", (cbs.2.len : Json)), ("cbsCap", (cbs.2.cap : Json))]
+
 def parseSlice (j : Json) : JE Slice := do
   match (← J.asArr j) with
   | [a, o, l, c] => pure ⟨← J.asNat a, ← J.asNat o, ← J.asNat l, ← J.asNat c⟩
@@ -216,6 +266,7 @@ def handle (c : Json) : JE Json := do
   | "copies" => handleCopies c
   | "runs" => handleRuns c
   | "share" => handleShare c
+  | "builtin" => handleBuiltin c
   | _ => handleCompose c
 
 end EinoV.Oracle.C10
